@@ -67,12 +67,14 @@ def run_roundtrip(tests, use_times, tagmode, time_tokens):
             conv.time(time_tokens[2 * n + 1])
         method = getattr(conv, P.EVENT[t["outcome"]])
         details = None
-        if t["form"] == "details":
+        if t["form"] in ("details", "both"):
             details = {}
             for name, cti, chunks in t["details"]:
                 details[name] = Content(CTYPES[cti], (lambda c: (lambda: list(c)))(chunks))
         try:
-            if t["form"] == "details":
+            if t["form"] == "both":
+                conv.addSkip(test, t["reason"], details=details)      # reason and details supplied together
+            elif t["form"] == "details":
                 method(test, details=details)
             elif t["outcome"] == "skip":
                 conv.addSkip(test, t["reason"])
@@ -109,14 +111,16 @@ def run_roundtrip(tests, use_times, tagmode, time_tokens):
             problems.append("test %d: final event does not carry the supplied end time" % n)
         files = rest[:-1]
         expect = []
-        if t["form"] == "details":
+        if t["form"] in ("details", "both"):
             for name, cti, chunks in t["details"]:
                 cs = list(chunks) or [b""]
                 for k, c in enumerate(cs):
                     expect.append((name, c, k == len(cs) - 1, repr(CTYPES[cti])))
         elif t["form"] == "exc" and t["outcome"] not in ("success", "uxsuccess", "skip"):
             expect = None      # one traceback attachment, checked below
-        if t["form"] != "details" and t["outcome"] == "skip":
+        if t["form"] == "both":
+            expect.append(("reason", t["reason"].encode("utf8"), True, 'text/plain; charset="utf8"'))
+        elif t["form"] != "details" and t["outcome"] == "skip":
             expect = [("reason", t["reason"].encode("utf8"), True, 'text/plain; charset="utf8"')]
         if expect is None:
             if not files or any(e.file_name != "traceback" for e in files) or not files[-1].eof or any(e.eof for e in files[:-1]):
@@ -159,7 +163,9 @@ def run_roundtrip(tests, use_times, tagmode, time_tokens):
             problems.append("test %d replayed as %s/%s, expected %s" % (n, b["id"], b["outcome"], REPLAYED[t["outcome"]]))
             continue
         det = b["payload"] if isinstance(b["payload"], dict) else {}
-        if t["form"] == "details":
+        if t["form"] == "both" and ("reason" not in det or det["reason"].as_text() != t["reason"]):
+            problems.append("test %d: skip reason lost when details were supplied as well" % n)
+        if t["form"] in ("details", "both"):
             for name, cti, chunks in t["details"]:
                 want = joined(chunks)
                 if len(want) == 0:
@@ -203,16 +209,18 @@ def pick_details(pre, nd, sel_ct, sel_nc, raw_chunks, name_rot):
 def h_one(o: int, form: int, nd: int, ct0: int, nc0: int, ct1: int, nc1: int, b0: bytes, b1: bytes, b2: bytes,
           b3: bytes, b4: bytes, b5: bytes, name_rot: int, use_times: bool, tagmode: int, t0: int, t1: int) -> bool:
     """
-    pre: 0 <= o < 6 and 0 <= form < 2 and 0 <= nd <= 2 and 0 <= ct0 < 5 and 0 <= ct1 < 5 and 0 <= nc0 < 4 and 0 <= nc1 < 4
+    pre: 0 <= o < 6 and 0 <= form < 3 and 0 <= nd <= 2 and 0 <= ct0 < 5 and 0 <= ct1 < 5 and 0 <= nc0 < 4 and 0 <= nc1 < 4
     pre: len(b0) <= 1 and len(b1) <= 1 and len(b2) <= 1 and len(b3) <= 1 and len(b4) <= 1 and len(b5) <= 1
     pre: 0 <= name_rot < 4 and 0 <= tagmode < 4
     post: _
     """
     try:
         oi = ch.sel("o", o, 6)
-        fm = ch.sel("form", form, 2)
+        fm = ch.sel("form", form, 3)
+        if fm == 2 and OUTCOMES[oi] != "skip":
+            return True
         v = dict(o=oi, form=fm)
-        if fm == 1:
+        if fm >= 1:
             ndd = ch.sel("nd", nd, 3)
             det = pick_details("", ndd, [ct0, ct1], [nc0, nc1], [b0, b1, b2, b3, b4, b5], ch.sel("name_rot", name_rot, 4))
             v["details"] = tuple((n, c, len(k)) for n, c, k in det)
@@ -223,7 +231,7 @@ def h_one(o: int, form: int, nd: int, ct0: int, nc0: int, ct1: int, nc1: int, b0
     except ch.Prune:
         return True
     v.update(use_times=ut, tagmode=tm)
-    test = dict(outcome=OUTCOMES[oi], form="details" if fm == 1 else ("exc" if OUTCOMES[oi] in ("failure", "error", "xfail") else "plain"),
+    test = dict(outcome=OUTCOMES[oi], form="both" if fm == 2 else ("details" if fm == 1 else ("exc" if OUTCOMES[oi] in ("failure", "error", "xfail") else "plain")),
                 details=det, reason=REASONS[tm % 2])
     res = run_roundtrip([test], ut, tm, [ch.V(t0), ch.V(t1)])
     ch.LAST.update(res)
@@ -263,6 +271,7 @@ def h_two(o0: int, o1: int, form: int, ct0: int, nc0: int, ct1: int, nc1: int, b
 
 def _one_shards(tier):
     out = [({"form": 0}, 600)]
+    out += [({"form": 2, "o": 3, "nd": n}, 1800) for n in range(2)] + [({"form": 2, "o": 3, "nd": 2, "ct0": c, "name_rot": 0, "tagmode": 3}, 1800) for c in range(5)]
     for o in range(6):
         out.append(({"form": 1, "o": o, "nd": 0}, 600))
         out += [({"form": 1, "o": o, "nd": 1, "ct0": c}, 900) for c in range(5)]
@@ -284,7 +293,7 @@ def _two_shards(tier):
 
 HARNESSES = [
     Harness("one", h_one, _one_shards,
-            bounds={"quick": "one test: 6 outcomes x (exc_info/reason/plain | details); 0..2 details with names from a 4-name alphabet "
+            bounds={"quick": "one test: 6 outcomes x (exc_info/reason/plain | details | for skips: reason and details together); 0..2 details with names from a 4-name alphabet "
                              "(non-ASCII included), content type in {octet-stream, text/plain;charset=utf8, text/x-traceback with two "
                              "parameters, application/json, a type whose parameter value contains a comma}, 0..3 chunks each; octet-stream chunks are symbolic bytes of length <= 1 (any "
                              "value, empty allowed), text chunks concrete incl. an empty chunk and a chunk ending inside nothing; explicit "
